@@ -141,7 +141,7 @@ pub enum RunKind {
     Long { calls: usize },
 }
 
-pub const FAULT_NAMES: [&str; 7] = [
+pub const FAULT_NAMES: [&str; 8] = [
     "F1_err_call",
     "F2_panic_call",
     "F3_placeholder_flip",
@@ -149,6 +149,7 @@ pub const FAULT_NAMES: [&str; 7] = [
     "F5_preempt_in_call",
     "F6_thread_churn",
     "F7_same_call_concurrent",
+    "F8_clock_jump",
 ];
 
 fn pick_policy(r: &mut Rng, nthreads: usize, kind: RunKind, allow_intra: bool) -> Policy {
@@ -191,8 +192,9 @@ pub fn make_spec(pool: &Pool, ix: &PoolIndex, seed: u64, kind: RunKind, allow_in
     let f3 = r.chance(0.5) && !ix.sensitive_exprs.is_empty();
     let f4 = r.chance(0.4) && !ix.cross_texts.is_empty();
     let f6 = r.chance(0.3);
+    let f8 = r.chance(0.3);
     let mut faults_enabled: Vec<&'static str> = Vec::new();
-    for (on, name) in [(f1, "F1"), (f2, "F2"), (f3, "F3+F7_theme"), (f4, "F4"), (f6, "F6")] {
+    for (on, name) in [(f1, "F1"), (f2, "F2"), (f3, "F3+F7_theme"), (f4, "F4"), (f6, "F6"), (f8, "F8")] {
         if on {
             faults_enabled.push(name);
         }
@@ -224,6 +226,7 @@ pub fn make_spec(pool: &Pool, ix: &PoolIndex, seed: u64, kind: RunKind, allow_in
     let hot: Vec<u32> = if total_calls_long > 0 && r.chance(0.7) { Vec::new() } else { hot };
     let mut clients: Vec<Vec<u32>> = Vec::new();
     let mut churn: Vec<Vec<u32>> = Vec::new();
+    let mut jumps: Vec<Vec<(u32, i64, i64)>> = Vec::new();
     for _t in 0..nthreads {
         let ncalls = match kind {
             RunKind::Short => {
@@ -331,6 +334,23 @@ pub fn make_spec(pool: &Pool, ix: &PoolIndex, seed: u64, kind: RunKind, allow_in
             }
             ch.sort();
         }
+        let mut js: Vec<(u32, i64, i64)> = Vec::new();
+        if f8 {
+            let n = if ncalls > 100 { r.range(1, 12) } else { r.range(0, 3) };
+            for _ in 0..n {
+                let k = r.below(ncalls) as u32;
+                let dm = [1_000i64, 1_000_000, 100_000_000, 1_000_000_000, 60_000_000_000, 3_600_000_000_000, 2_592_000_000_000_000][r.below(7)];
+                // the wall clock usually moves with the monotonic one, sometimes further, sometimes backwards (an NTP step)
+                let dr = match r.below(5) {
+                    0 => -1_000_000_000,
+                    1 => -3_600_000_000_000,
+                    _ => dm,
+                };
+                js.push((k, dm, dr));
+            }
+            js.sort();
+        }
+        jumps.push(js);
         clients.push(calls);
         churn.push(ch);
     }
@@ -349,5 +369,6 @@ pub fn make_spec(pool: &Pool, ix: &PoolIndex, seed: u64, kind: RunKind, allow_in
         est_steps,
         want_trace: false,
         faults_enabled,
+        clock_jumps: jumps,
     }
 }
